@@ -65,6 +65,8 @@ def run(ctx, chk):
     import serializer_rules as SR
     import encoder_rules as ER
     failsig = set(ER.public_encoders(prog)) | {g.name for g in SR.subjects(prog)}
+    _FAILSIG.clear()
+    _FAILSIG.update(failsig)
 
     def analyse_paths(fname, inline=()):
         X = P.Executor(prog, eff, inline=inline, arith_events=True, loop_bound=1)
@@ -241,6 +243,7 @@ def _field_of_load(prog, v):
 
 
 _REACH = {}
+_FAILSIG = set()
 
 
 def _reach(prog, name):
@@ -317,8 +320,10 @@ def classify_ir(prog, f, i):
     # 8: window arithmetic in the serializers (shape verified by C07.window)
     if f.name in WINDOW_FUNCS:
         def is_w(v):
+            # a running total: a phi / sum of totals, or the byte count returned by an encoder / serializer; a payload
+            # LENGTH is not one - adding it is only safe after it was compared with the remaining window (path form)
             v = strip_casts(v)
-            return isinstance(v, Inst) and (v.op == "phi" or v.op == "call" or v.op == "add")
+            return isinstance(v, Inst) and (v.op == "phi" or v.op == "add" or (v.op == "call" and v.callee in _FAILSIG))
         if i.op == "sub" and isinstance(a, Arg) and a.name == "buffer_size" and is_w(b):
             return ("8-window", "buffer_size - written; written only accumulates non-zero callee results (C07.window)")
         if i.op == "add" and is_w(a) and is_w(b):
